@@ -701,10 +701,18 @@ def sh_safe(ctx, include_make_recipe=False, rule_id='SH-SAFE'):
                             F.atoms(r.value, g, b), True) and not \
                         _under_type(F, r, g, 'shell_literal'):
                     falses.append((r, g, b))
+        sparam = Q.params(f.node)[0]
+
+        def nonempty(r, g, b):
+            if any(op == 'NotEq' and (has_const(l, '') or has_const(rr, ''))
+                   for op, l, rr in F.guard_compares(r, g, b)):
+                return True
+            # `if s and ...`: the string itself tested for truth
+            return g is f and any(
+                pos and isinstance(t, ast.Name) and t.id == sparam
+                for t, pos in F.guard_truths(r, g))
         ok = bool(falses) and has_const(F.returns(f), True) and all(
-            any(op == 'NotEq' and (has_const(l, '') or has_const(rr, ''))
-                for op, l, rr in F.guard_compares(r, g, b))
-            for r, g, b in falses)
+            nonempty(r, g, b) for r, g, b in falses)
     if not ok and te.name == 'fullmatch' and needs('') and reps and all(
             selected(e) for e, _ in reps):
         # the empty word is not a safe word: it takes the quoting branch
